@@ -90,14 +90,21 @@ def _prune(flavour, keep_dir, keep=16):
         shutil.rmtree(e, ignore_errors=True)
 
 
+def lib_dir(flavour="asan", repo=None):
+    """cache directory for the current content of the tree (may not exist yet)"""
+    repo = repo or repo_path()
+    cc, cxx, flags, targets = FLAVOURS[flavour]
+    th = tree_hash(repo)
+    th = hashlib.sha256((th + "|" + cc + "|" + cxx + "|" + flags + "|" + " ".join(targets)).encode()).hexdigest()[:20]
+    return os.path.join(CACHE, "%s-%s" % (flavour, th))
+
+
 def ensure_lib(flavour="asan", repo=None):
     """Return the build directory holding the libraries of the current tree."""
     repo = repo or repo_path()
     cc, cxx, flags, targets = FLAVOURS[flavour]
     os.makedirs(CACHE, exist_ok=True)
-    th = tree_hash(repo)
-    th = hashlib.sha256((th + "|" + cc + "|" + cxx + "|" + flags + "|" + " ".join(targets)).encode()).hexdigest()[:20]
-    bdir = os.path.join(CACHE, "%s-%s" % (flavour, th))
+    bdir = lib_dir(flavour, repo)
     ok = os.path.join(bdir, ".ok")
     if os.path.exists(ok):
         os.utime(bdir, None)
@@ -117,7 +124,7 @@ def ensure_lib(flavour="asan", repo=None):
               "-DCMAKE_C_FLAGS=" + flags, "-DCMAKE_CXX_FLAGS=" + flags], logf=logf)
         _run(["ninja", "-C", bdir] + targets, logf=logf)
         with open(ok, "w") as fh:
-            fh.write("%s %.1fs\n" % (th, time.time() - t0))
+            fh.write("%s %.1fs\n" % (os.path.basename(bdir), time.time() - t0))
         _prune(flavour, bdir)
     return bdir
 
